@@ -59,6 +59,7 @@ type vfCfg struct {
 	LDAPServers   int         `json:"ldap_servers,omitempty"`
 	NoPwCache     bool        `json:"no_pw_cache,omitempty"`
 	Sealed        bool        `json:"sealed,omitempty"`
+	Ed25519OtherPass bool     `json:"ed25519_other_pass,omitempty"` // the sealed Ed25519 CA file needs another passphrase than the primary
 	BadPrimary    bool        `json:"bad_primary,omitempty"` // sealed primary CA file decrypts (right passphrase) to a key the loader must reject (an Ed25519 key)
 	GroupsLDAP    bool        `json:"groups_ldap,omitempty"` // userinfo_sources.ldap configured (simulated directory)
 	PublicLogs    bool        `json:"public_logs,omitempty"`
@@ -241,6 +242,9 @@ func (w *vfWorld) writeConfig() (string, error) {
 		ed := "ca_ed25519.pem"
 		if c.Sealed {
 			ed = "ca_ed25519.asc"
+			if c.Ed25519OtherPass {
+				ed = "ca_ed25519_otherpass.asc"
+			}
 		}
 		fmt.Fprintf(&b, "  ed25519_ca_keyfilename: %q\n", vfFixture(ed))
 	}
